@@ -69,11 +69,15 @@ DomT3 == 0..2
 SpaceT3b == {c \in SpaceT3 : c.sizes # <<3, 3>>}
 SpaceT4 == {c \in SpaceT3 : c.sizes = <<3, 3>>}
 DomT4 == 0..1
+\* two exact sweeps only where at most one of the three-way averaging families is configured: with two of them
+\* the denominators (2^a 3^b) outgrow TLC's 32-bit integers in the second sweep (an overflow is a machinery error)
 SpaceT5 ==
-  {WithFam(Mk(s, <<1, 1>>, <<0, 0>>, e, <<>>, b, 2, it, TRUE), md, rd, jm, <<>>) :
+  {c \in {WithFam(Mk(s, <<1, 1>>, <<0, 0>>, e, <<>>, b, 2, it, TRUE), md, rd, jm, <<>>) :
      s \in {<<2, 2>>, <<3, 2>>, <<2, 3>>}, e \in {<<>>, << <<1, 2, 1>> >>, << <<2, 1, -1>> >>}, b \in {NoB, BothB},
      it \in {1, 2}, md \in {<<>>, << <<1, 2>> >>}, rd \in {<<>>, << <<2, 1>> >>, << <<1, 2>> >>},
-     jm \in {<<>>, << <<1, 2>> >>}}
+     jm \in {<<>>, << <<1, 2>> >>}} :
+     c.iters = 1 \/ Cardinality({f \in {"mdom", "rdom", "jmono"} :
+                                   (f = "mdom" /\ c.mdom # <<>>) \/ (f = "rdom" /\ c.rdom # <<>>) \/ (f = "jmono" /\ c.jmono # <<>>)}) <= 1}
   \cup {WithFam(Mk(s, m, u, <<>>, <<>>, b, 2, it, TRUE), <<>>, <<>>, jm, ju) :
      s \in {<<2, 3>>}, m \in {<<0, 0>>}, u \in {<<0, 0>>}, b \in {NoB, BothB}, it \in {1, 2},
      jm \in {<<>>, << <<1, 2>> >>},
